@@ -10,6 +10,7 @@
 //! I <id> <payload>      input (fed verbatim to the Lean model driver)
 //! O <id> <output>       implementation's canonical output
 //! V <id> <class> <..>   oracle: the implementation violates the property here
+//! F <id> <reason>       infrastructure fault of the harness itself (case not evaluated)
 //! S <key> <count>       input-distribution statistics (for the evidence file)
 //! N <count>             number of distinct non-trivial cases
 //! ```
@@ -148,6 +149,10 @@ pub struct Exec {
     /// `None`: the payload itself is the model input.  The payload stays the
     /// replayable case (printed as a `P` line).
     pub model_input: Option<String>,
+    /// Set when the harness' own plumbing failed (could not bind a socket, a bounded wait
+    /// of the harness expired, …): the case is reported as an `F` line, is not compared with
+    /// the model and is never a violation; the check counts such cases in its evidence.
+    pub infra: Option<String>,
 }
 
 impl Exec {
@@ -277,6 +282,10 @@ pub fn run<P: Prop>(mut p: P) {
             }
         }
         match res {
+            Ok(Exec { infra: Some(reason), .. }) => {
+                let _ = writeln!(w, "F {id} {}", clean(&reason));
+                *stats.entry("infra-fault".into()).or_default() += 1;
+            }
             Ok(ex) => {
                 let _ = writeln!(w, "O {id} {}", clean(&ex.out));
                 for (class, detail) in &ex.violations {
